@@ -26,6 +26,7 @@ OCAML = lmmx.OCAML
 HARNESS = lmmx.HARNESS
 COQ_TARGETS = ["theories/Props/C02_ext.vo", lmmx.EXTRACT_TARGET]
 PROPS = "C02_ext"
+CORPUS = os.environ.get("LMMX_CORPUS") or os.path.join(VERIF, "corpus", "lmmx")     # LMMX_CORPUS: development only
 
 # id -> (backends that deviate, class, text)
 FINDINGS = {
@@ -59,6 +60,42 @@ FINDINGS = {
     "W9": (("wasm",), "syntactic W9: a function / lambda returns a closure over one of its let-bound locals and can run more than once",
            "WASM: closures capture the ADDRESS of let-bound cells and every call of a function uses the same cells: two counters made by "
            "one maker share their count"),
+    "M1": (("vm", "wasm"), "syntactic M1 (lmmx.match_selection): on some scrutinee value the compiler's arm selection differs from first-match order",
+           "match does not take the FIRST arm that matches: a `_` arm is the default wherever it stands (match x { _ => a, 0 => b } gives b "
+           "for 0) and tuple patterns are compiled to a decision tree that tries the arms with a literal / constructor in a column "
+           "before the arms with `_` there (match (x, y) { (_, _) => a, (0, 0) => b } gives b for (0, 0))"),
+    "M2": (("vm", "wasm"), "syntactic M2: a stateful arm of a tuple match that the decision tree compiles more than once",
+           "one textual call site, several states: an arm of a tuple match that applies in several branches of the decision tree is "
+           "compiled once per branch and every copy has its own state cells (fn cnt(i){self+i}  match (now % 3.0, 1.0) { (0, 0) => 100.0, "
+           "(1, _) => 200.0, _ => cnt(1.0) } counts 1 1 2 2 3 3 instead of 1 2 3 4 5 6)"),
+    "M3": (("vm",), "syntactic M3: two arms of a match with the same literal / constructor",
+           "VM: of two arms with the same literal (or constructor) the LAST one is taken (the jump table is overwritten); WASM takes the first"),
+    "F66": (("vm",), "dynamic (C03/F66): the VM output differs, WASM follows the reference, and the program's bytecode reads an upvalue into a register "
+            "above everything its frame has certainly written (lmmx.upvalue_read_above_frame on the bc_dump of the program)",
+            "VM: GetUpValue of an OPEN upvalue into a register above the stack top grows the value stack while a slice into the old "
+            "buffer is held: garbage at the first sample (fn dsp(x:float){ let a = 1.0  (0.0 |> (|y| { let t = (y, x, a)  match a { 2 => "
+            "t.2 + 0.0, 0 => x, _ => x } })) } plays 6.9e-310 for x = 5); recorded as C03/F66 by the bytecode part, allocator dependent"),
+    "W10": (("wasm",), "syntactic W10: a lambda whose result is its own `self` of a sum type",
+            "WASM: invalid module (`type mismatch: expected i64 but nothing on stack`) for type T = A(float) | B((float, float))  "
+            "fn mk(){ |y| { let v = (match self { A(p) => p, B((q, r)) => q })  self } }; a named function with the same body is fine"),
+    "M5": (("vm", "wasm"), "syntactic M5: a constructor pattern inside a tuple pattern whose payload pattern nests a tuple pattern with variables",
+           "match (1.0, A((7.0, (8.0, 9.0)))) { (_, A((x, (y, z)))) => x * 100.0 + y * 10.0 + z, _ => 0.0 } gives 788: the decision tree "
+           "binds every variable of the nested pattern to the first component (mirgen.rs collect_bindings_from_payload overwrites the "
+           "element index); the same pattern in a match on the sum value alone gives 789"),
+    "W11": (("wasm",), "syntactic W11: a lambda mentions a variable bound by a constructor pattern inside a tuple pattern",
+            "WASM: match (A(7.0), 1.0) { (A(x), _) => (6.0 |> (|q| { x })), _ => 0.0 } plays 5.18e-321 (the address of the payload): "
+            "the decision tree binds the variable without a cell; the relative of the repaired W5 / C01 F64w"),
+    "W12": (("wasm",), "syntactic W12: in a lambda, a variable bound by a pattern on the lambda's wide `self` is directly a component of a tuple / record literal",
+            "WASM: fn mk(){ | | { let (a, b) = self  (a, b) } }: a closure that later captures a component of the result reads an address "
+            "(5.3e-321); with (a + 0.0, b + 0.0), or in a named function, the value is right"),
+    "S1": (("vm", "wasm"), "not generated (record patterns on `self` are printed in canonical order; text witness corpus/lmmx/findings/S1_record_pattern_on_self.mmm)",
+           "a record pattern that takes `self` apart binds its fields by POSITION, not by name: fn f(x:float) -> {fa:float, fc:float}{ let {fc = q, "
+           "fa = p} = self  {fa = p + x, fc = q + p} } gives q the word of fa and p the word of fc (f(1.0): 100 101 202 instead of 100 201 303): "
+           "the meaning depends on the order in which the fields of the pattern are written"),
+    "MG": (("vm", "wasm"), "syntactic MG: a match with a payload-binding constructor pattern evaluated at global scope (top-level `let` initialiser)",
+           "type T = A((float, float)) | B((float, float, float))  let v = match A((1.0, 6.0)) { B((a, b, c)) => a, _ => 4.0 }: WASM gives 0.0 "
+           "(VM and the reference 4.0); when the bound variable is used in an `if`, a call or a lambda the VM does not compile "
+           "(`value reg(N) not found`); inside a function the same match works on both backends"),
     "R5": ((), "not modelled: generator rule R5",
            "a capture-free lambda is a function constant for the compiler (direct calls, per-call-site state, like a named function); the "
            "reference models every lambda as an instance, so capture-free STATEFUL lambdas are outside the compared fragment"),
@@ -141,8 +178,8 @@ def judge(p, rows, m, r):
 
 
 class Sides:
-    def __init__(self, mexe, iexe):
-        self.mexe, self.iexe = mexe, iexe
+    def __init__(self, mexe, iexe, dexe=None):
+        self.mexe, self.iexe, self.dexe = mexe, iexe, dexe
         self.rng = vplib.Rng(20260926)     # only permutes the (meaningless) textual order of record fields
         self.calls = 0
 
@@ -154,7 +191,32 @@ class Sides:
             for q in reqs:
                 q["isolate"] = True
         ires = lmmx.run_impl(self.iexe, reqs)
+        if isolate:
+            # a request that killed the harness process: run each backend in its own process to see which one it was
+            dead = [i for i, r in enumerate(ires) if 'crash' in r]
+            if dead:
+                sub = []
+                for i in dead:
+                    for be in ("vm", "wasm"):
+                        q = {k: v for k, v in reqs[i].items() if k != 'id'}
+                        q["backends"] = [be]
+                        sub.append(q)
+                sres = lmmx.run_impl(self.iexe, sub)
+                for j, i in enumerate(dead):
+                    merged = {"id": ires[i].get("id")}
+                    for k, be in enumerate(("vm", "wasm")):
+                        a = sres[2 * j + k]
+                        merged[be] = a.get(be) if 'crash' not in a else {"died": a['crash']}
+                    ires[i] = merged
         return mres, ires
+
+    def f66_class(self, p, rows):
+        """dynamic class of finding C03/F66, decided on the bytecode of the real compiler (harness bc_dump)"""
+        if self.dexe is None:
+            return False
+        q = lmmx.impl_requests([(p, rows)], self.rng)[0]
+        res, _ = lmmx.lmmm._run_batch(self.dexe, [{"id": 0, "src": q["src"], "n": 0, "run": False}], 120)
+        return bool(res) and 'prog' in res[0] and lmmx.upvalue_read_above_frame(res[0]['prog'])
 
 
 def build_sides():
@@ -164,14 +226,14 @@ def build_sides():
     rc, out, mexe = vplib.ocaml_build("lmmx_drv", ["lmmx_model"], os.path.join(VERIF, "ocaml", "lmmx_drv.ml"))
     if rc != 0:
         return None, "model driver does not build: " + out[-300:]
-    rc, out, bindir = vplib.cargo_build("lang", ["lmmm_run"])
+    rc, out, bindir = vplib.cargo_build("lang", ["lmmm_run", "bc_dump"])
     if rc != 0:
-        return None, "harness lmmm_run does not build: " + out[-400:]
-    return Sides(mexe, os.path.join(bindir, "lmmm_run")), None
+        return None, "harness lmmm_run / bc_dump does not build: " + out[-400:]
+    return Sides(mexe, os.path.join(bindir, "lmmm_run"), os.path.join(bindir, "bc_dump")), None
 
 
 def run_corpus(ck, sides, viol, cov):
-    path = os.path.join(VERIF, "corpus", "lmmx", "cases.json")
+    path = os.path.join(CORPUS, "cases.json")
     if not os.path.exists(path):
         viol.append(("closures: corpus/lmmx/cases.json is missing", {"no_input": True}))
         return
@@ -199,7 +261,7 @@ def run_corpus(ck, sides, viol, cov):
             elif c[be] != "ref":
                 (cov["corpus_findings_reproduced"] if now != "ref" else cov["corpus_findings_changed"]).append("%s:%s" % (c["name"], be))
     # text witnesses (constructs outside the AST): expected outputs in the header
-    d = os.path.join(VERIF, "corpus", "lmmx", "findings")
+    d = os.path.join(CORPUS, "findings")
     for fn in sorted(os.listdir(d)) if os.path.isdir(d) else []:
         if not fn.endswith(".mmm"):
             continue
@@ -233,14 +295,27 @@ def unjson_prog(p):
                 if k == 'app': return ('app', e(x[1]), [e(a) for a in x[2]])
                 if k == 'lam': return ('lam', [(a, ty(t)) for a, t in x[1]], e(x[2]))
                 if k == 'let': return ('let', pat(x[1]), e(x[2]), e(x[3]))
+                if k == 'selfs': return ('selfs', shape(x[1]))
+                if k == 'con': return ('con', x[1], x[2], e(x[3]) if x[3] is not None else None)
+                if k == 'match': return ('match', e(x[1]), [(mpat(m), e(b)) for m, b in x[2]])
                 return tuple([k] + [e(a) if isinstance(a, list) else a for a in x[1:]])
         return x
     def pat(q):
         if q[0] == 'pt': return ('pt', [pat(s) for s in q[1]])
         if q[0] == 'pr': return ('pr', [(f, pat(s)) for f, s in q[1]])
         return tuple(q)
+    def shape(sh):
+        if sh == 'N': return sh
+        if sh[0] == 'st': return ('st', [shape(x) for x in sh[1]])
+        if sh[0] == 'sr': return ('sr', [(f, shape(x)) for f, x in sh[1]])
+        return ('ss', sh[1], [None if x is None else shape(x) for x in sh[2]])
+    def mpat(m):
+        if m[0] == 'mc': return ('mc', m[1], m[2], pat(m[3]) if m[3] is not None else None)
+        if m[0] == 'mt': return ('mt', [mpat(x) for x in m[1]])
+        return tuple(m)
     def ty(t):
         if t is None or t == 'F': return t
+        if t[0] == 'S': return ('S', t[1])
         if t[0] == 'T': return ('T', [ty(s) for s in t[1]])
         if t[0] == 'R': return ('R', [(f, ty(s)) for f, s in t[1]])
         return ('Fn', [ty(s) for s in t[1]], ty(t[2]))
@@ -250,7 +325,51 @@ def unjson_prog(p):
             gs.append(('fun', g[1], [(x, ty(t), e(d) if d is not None else None) for x, t, d in g[2]], e(g[3]), ty(g[4]) if g[4] else None))
         else:
             gs.append(('glet', pat(g[1]), e(g[2])))
-    return {"globals": gs, "inputs": list(p["inputs"]), "lets": [(pat(q), e(x)) for q, x in p["lets"]], "outs": [e(x) for x in p["outs"]]}
+    q = {"globals": gs, "inputs": list(p["inputs"]), "lets": [(pat(q), e(x)) for q, x in p["lets"]], "outs": [e(x) for x in p["outs"]]}
+    if p.get("types"):
+        q["types"] = [(t, [None if c is None else ty(c) for c in cs]) for t, cs in p["types"]]
+    return q
+
+
+def run_wide_redundancy(ck, sides, viol, cov, quick):
+    """lib/wideself.py (a python evaluator of the property text for tuple / record / sum-typed `self`) is REDUNDANT: the programs
+    of its generator, translated into the Lmmx syntax (lmmx_gen.wide_case: same random draws), are run by the extracted reference
+    semantics, which must reproduce wideself's expected streams; the translated programs are also run on both backends."""
+    import wideself
+    rng = ck.rng.fork("lmmx-wide")
+    n, ns = (300, 12) if quick else (3000, 32)
+    cases, expect = [], []
+    for i in range(n):
+        c = wideself.gen_case(rng.fork(i), ns)
+        p = lmmx_gen.wide_case(rng.fork(i), ns)
+        cases.append((p, [[] for _ in range(ns)]))
+        expect.append(c)
+    mres, ires = sides.run(cases)
+    st = {"programs": n, "reference_equals_wideself": 0, "vm_matches_reference": 0, "wasm_matches_reference": 0}
+    shapes = {}
+    bad = []
+    for (p, rows), c, m, r in zip(cases, expect, mres, ires):
+        for sh in c["shapes"]:
+            shapes[sh] = shapes.get(sh, 0) + 1
+        if m.get('big') or m.get('timeout') or any(abs(v) >= 2 ** 53 for row in c["expect"] for v in row):
+            st["discarded_not_exact(|v|>=2^53)"] = st.get("discarded_not_exact(|v|>=2^53)", 0) + 1
+            continue
+        if m.get('ref') != c["expect"]:
+            bad.append(("closures: the extracted reference semantics (Lmmx) and the python evaluator lib/wideself.py give different streams "
+                        "for a program of wideself's generator (or the translation lmmx_gen.wide_case is out of step with wideself.gen_case)",
+                        {"wideself_source": c["src"], "translated_source": lmmx.pp_prog(p), "wideself_expect": c["expect"][:8],
+                         "reference": (m.get('ref') or m)[:8] if isinstance(m.get('ref'), list) else m, "model_input": lmmx.model_line(p, rows)}))
+            continue
+        st["reference_equals_wideself"] += 1
+        verdicts, kc = judge(p, rows, m, r)
+        for be in ("vm", "wasm"):
+            if verdicts[be] == 'ok':
+                st[be + "_matches_reference"] += 1
+            elif not isinstance(verdicts[be], str):
+                bad.append(("closures (wide self): " + verdicts[be][1], {"source": lmmx.pp_prog(p), "reference_outputs": m['ref'], "backend": be}))
+    viol.extend(bad[:3])
+    st["shapes"] = shapes
+    cov["wideself_redundancy"] = st
 
 
 def run_part(ck, quick=True):
@@ -265,6 +384,7 @@ def run_part(ck, quick=True):
         return viol + [("closures: " + err, {"no_input": True})]
     cov = {}
     run_corpus(ck, sides, viol, cov)
+    run_wide_redundancy(ck, sides, viol, cov, quick)
 
     rng = ck.rng.fork("lmmx")
     n_cases, n_samples = (3000, 16) if quick else (24000, 24)
@@ -322,6 +442,9 @@ def run_part(ck, quick=True):
             if isinstance(vd[be], str):
                 bump("failed_only_inside_a_shared_harness_process")
                 cov.setdefault("unstable_examples", []).append({"backend": be, "what": why[:200], "source": lmmx.pp_prog(cases[idx][0])[:1500]})
+            elif be == "vm" and vd[be][0] == 'bad' and vd["wasm"] == 'ok' and "output at sample" in vd[be][1] and sides.f66_class(*cases[idx]):
+                bump("vm_exempt:F66(dynamic)")
+                cov.setdefault("f66_examples", []).append(lmmx.pp_prog(cases[idx][0])[:1500])
             else:
                 confirmed.append((idx, be, vd[be][1]))
     bad = confirmed
@@ -345,7 +468,9 @@ def run_part(ck, quick=True):
                 vd, _ = judge(q, rw, m2, r2)
                 other = "wasm" if be == "vm" else "vm"
                 # keep the other backend's verdict: a candidate that BOTH reject is just an ill-formed program
-                out.append(not isinstance(vd[be], str) and (vd[be][0] != 'reject' or isinstance(vd[other], str)))
+                ob = lmmx.backend_rows(r2.get(other), len(rw)) if 'crash' not in r2 else ('crash',)
+                # a candidate the backend REJECTS counts only when the other backend runs it: otherwise it is just ill formed
+                out.append(not isinstance(vd[be], str) and (vd[be][0] != 'reject' or ob[0] == 'ok'))
             return out
         return f
     for idx, be, why in bad[:3]:
